@@ -18,8 +18,8 @@ PROPS = {
     'C10': dict(families=[], bounded='pvf.bounded.c10', level='other'),
     'C11': dict(families=[], bounded='pvf.bounded.c11', level='other'),
     'C12': dict(families=['layout'], bounded='pvf.bounded.c12', level='other'),
-    'C13': dict(families=[], bounded='pvf.bounded.c13', level='other'),
-    'C14': dict(families=[], bounded='pvf.bounded.c14', level='other'),
+    'C13': dict(families=['runpretty'], bounded='pvf.bounded.c13', level='other'),
+    'C14': dict(families=['runpretty'], bounded='pvf.bounded.c14', level='other'),
     'C15': dict(families=[], bounded='pvf.bounded.c15', level='other'),
     'C16': dict(families=[], bounded='pvf.bounded.c16', level='other'),
     'C17': dict(families=[], bounded='pvf.bounded.c17', level='other'),
